@@ -150,6 +150,10 @@ def run(ctx: Ctx, tier: str) -> Result:
            "str(..) of the evaluated expression: a plugin rendering the object later would run the program's code under the plugin's locks)")
     borrow(ctx, res, tier, "c15", ("C15.THREAD",), "C01.R4", "the handler's per-thread state lives in a threading.local of its own (no thread registry, context or identity table the "
            "program can see or inherit)")
+    borrow(ctx, res, tier, "c13", ("C13.ARGS",), "C01.R3", "a mapping / list the program hands to register_tracepoint stays the program's: the agent reads it, it never "
+           "writes into it (the program's data changes, a read-only mapping raises into the program)")
+    borrow(ctx, res, tier, "c14", ("C14.B", "C14.C"), "C01.HOOKS", "the trace hooks the program (a debugger, coverage) had installed are the ones put back when the agent stops, "
+           "and are left alone when tracing is switched off: afterwards the program runs as it did before the agent")
     return res
 
 
